@@ -15,72 +15,70 @@ func NewArrayPattern(elements ...FallbackPattern) ArrayPattern {
 }
 
 func (p ArrayPattern) Bind(ctx context.Context, local Scope, value Value) (context.Context, Scope, error) {
-	switch value.(type) {
+	// The pattern read as an expression builds a dense array starting at index
+	// 0, so that is all it matches.
+	var values []Value
+	switch v := value.(type) {
 	case EmptySet:
-		if len(p.items) == 0 {
-			return ctx, EmptyScope, nil
+	case Array:
+		if v.offset != 0 || v.count != len(v.values) {
+			return ctx, EmptyScope, fmt.Errorf("array %s with an offset or holes does not match array pattern %s", v, p)
 		}
-		return ctx, EmptyScope, fmt.Errorf("value [] is empty but pattern %s is not", p)
-	case GenericSet:
+		values = v.values
+	default:
 		return ctx, EmptyScope, fmt.Errorf("value %s is not an array", value)
 	}
 
-	array, is := value.(Array)
-	if !is {
-		return ctx, EmptyScope, fmt.Errorf("value %s is not an array", value)
-	}
-
-	extraElements := make(map[int]int)
+	rest, optional := -1, 0
 	for i, item := range p.items {
 		if _, is := item.pattern.(ExtraElementPattern); is {
-			if len(extraElements) == 1 {
+			if rest >= 0 || optional > 0 {
 				return ctx, EmptyScope, fmt.Errorf("non-deterministic pattern is not supported yet")
 			}
-			extraElements[i] = array.Count() - len(p.items)
-		}
-		if item.fallback != nil {
-			if len(extraElements) == 1 {
+			rest = i
+		} else if item.fallback != nil {
+			if rest >= 0 {
 				return ctx, EmptyScope, fmt.Errorf("non-deterministic pattern is not supported yet")
 			}
-			extraElements[i] = array.Count() - len(p.items)
+			optional++
 		}
 	}
-
-	if len(p.items) > array.Count()+len(extraElements) {
-		return ctx, EmptyScope, fmt.Errorf("length of array %s shorter than array pattern %s", array, p)
+	fixed := len(p.items)
+	if rest >= 0 {
+		fixed--
 	}
-
-	if len(extraElements) == 0 && len(p.items) < array.Count() {
-		return ctx, EmptyScope, fmt.Errorf("length of array %s longer than array pattern %s", array, p)
+	if len(values) < fixed-optional {
+		return ctx, EmptyScope, fmt.Errorf("length of array %s shorter than array pattern %s", value, p)
+	}
+	if rest < 0 && len(values) > fixed {
+		return ctx, EmptyScope, fmt.Errorf("length of array %s longer than array pattern %s", value, p)
 	}
 
 	result := EmptyScope
-	offset := 0
+	pos := 0
 	for i, item := range p.items {
-		var value Value
-		if _, is := item.pattern.(ExtraElementPattern); is {
-			offset = extraElements[i]
-			arr := NewArray()
-			if offset >= 0 {
-				arr = NewArray(array.Values()[i : i+offset+1]...)
-			}
-			value = arr
-		} else if array.Count() <= i+offset {
-			if item.fallback == nil {
-				return ctx, EmptyScope, fmt.Errorf("length of array %s shorter than array pattern %s", array, p)
-			}
+		var elem Value
+		switch {
+		case i == rest:
+			n := len(values) - fixed
+			elem = NewArray(values[pos : pos+n]...)
+			pos += n
+		case pos < len(values):
+			elem = values[pos]
+			pos++
+		case item.fallback != nil:
 			var err error
-			value, err = item.fallback.Eval(ctx, local)
+			elem, err = item.fallback.Eval(ctx, local)
 			if err != nil {
 				return ctx, EmptyScope, err
 			}
-		} else {
-			value = array.Values()[i+offset]
+		default:
+			return ctx, EmptyScope, fmt.Errorf("length of array %s shorter than array pattern %s", value, p)
 		}
 
 		var scope Scope
 		var err error
-		ctx, scope, err = item.pattern.Bind(ctx, local, value)
+		ctx, scope, err = item.pattern.Bind(ctx, local, elem)
 		if err != nil {
 			return ctx, EmptyScope, err
 		}
